@@ -428,6 +428,12 @@ structure MoveOK (s : St) (nodes0 : Mask) (r : Req) (nodes : Mask) : Prop where
   new : nodes ≠ 0
   prio : r.prio ≤ 32766
   touch : touches nodes0 r.zone
+  /-- `nodes` is what `expand` returned for the request's zone (on a state with the same node
+  table), together with the types `ty` of those nodes; a strict request is only moved when its
+  types are exactly the zone's types plus `ty` -/
+  strictOk : ∃ (s0 : St) (extra ty : Nat), s0.nodes = s.nodes ∧
+    s0.expand r.zone (s0.zoneType r.zone ||| extra) = (nodes, ty) ∧
+    (r.strict = true → r.types = s0.zoneType r.zone ||| ty)
 
 theorem mem_sortBy {α} (lt : α → α → Bool) (l : List α) (x : α) : x ∈ sortBy lt l ↔ x ∈ l :=
   (sortBy_perm lt l).mem_iff
@@ -443,28 +449,42 @@ theorem checkOvercommit_touch (nodes0 : Mask) (s : St) : ∀ z ∈ s.checkOverco
   unfold touches
   exact hf.1
 
+theorem zoneMove_nodes' (s : St) (z : Mask) (id : String) : (s.zoneMove z id).nodes = s.nodes := by
+  have hassign : ∀ (s : St) (z : Mask), (s.zoneAssign z id).nodes = s.nodes := by
+    intro s z; simp [St.zoneAssign, St.setZone]
+  have hremove : ∀ (s : St) (z : Mask), (s.zoneRemove z id).nodes = s.nodes := by
+    intro s z
+    unfold St.zoneRemove
+    split
+    · split <;> simp [St.setZone]
+    · rfl
+  unfold St.zoneMove
+  split
+  · split
+    · split
+      · rfl
+      · rw [hassign, hremove]
+    · exact hassign _ _
+  · rfl
+
 section Combinator
 variable (nodes0 : Mask) (P : St → Prop)
 variable (hamb : ∀ s x, P s → P { s with ambig := x })
 variable (hmove : ∀ s r nodes, P s → MoveOK s nodes0 r nodes → P (s.zoneMove (r.zone ||| nodes) r.id))
 include hamb hmove
 
-theorem shrinkGo_pres (zone nodes : Mask) (hn : nodes ≠ 0) (ht : touches nodes0 zone) (amount : Int) (zt ty : Nat) :
-    ∀ (l : List Req) (s : St) (moved : Int), IdsNodup s → P s →
+theorem shrinkGo_pres (zone nodes : Mask) (hn : nodes ≠ 0) (ht : touches nodes0 zone) (amount : Int) (zt ty : Nat)
+    (s0 : St) (extra : Nat) (hzt : zt = s0.zoneType zone) (hexp : s0.expand zone (s0.zoneType zone ||| extra) = (nodes, ty)) :
+    ∀ (l : List Req) (s : St) (moved : Int), IdsNodup s → P s → s.nodes = s0.nodes →
       (∀ r ∈ l, r ∈ s.reqs ∧ r.zone ≠ 0 ∧ r.zone = zone ∧ r.prio ≤ 32766) → (l.map (·.id)).Nodup →
       IdsNodup (St.zoneShrinkUsage.go zone amount zt nodes ty s moved l).1 ∧
       P (St.zoneShrinkUsage.go zone amount zt nodes ty s moved l).1 := by
   intro l
   induction l with
-  | nil => intro s moved hnd hp _ _; simpa [St.zoneShrinkUsage.go] using ⟨hnd, hp⟩
+  | nil => intro s moved hnd hp _ _ _; simpa [St.zoneShrinkUsage.go] using ⟨hnd, hp⟩
   | cons r rs ih =>
-    intro s moved hnd hp hl hln
+    intro s moved hnd hp hnodes hl hln
     obtain ⟨hrm, hrz, hrzone, hrp⟩ := hl r (List.mem_cons_self)
-    have hstep : IdsNodup (s.zoneMove (zone ||| nodes) r.id) ∧ P (s.zoneMove (zone ||| nodes) r.id) := by
-      refine ⟨?_, ?_⟩
-      · unfold IdsNodup; rw [zoneMove_ids]; exact hnd
-      · have := hmove s r nodes hp ⟨hnd, hrm, hrz, hn, hrp, by rw [hrzone]; exact ht⟩
-        rw [hrzone] at this; exact this
     have hrest : ∀ r' ∈ rs, r' ∈ (s.zoneMove (zone ||| nodes) r.id).reqs ∧ r'.zone ≠ 0 ∧ r'.zone = zone ∧ r'.prio ≤ 32766 := by
       intro r' hr'
       obtain ⟨a, b, c, d⟩ := hl r' (List.mem_cons_of_mem _ hr')
@@ -475,11 +495,23 @@ theorem shrinkGo_pres (zone nodes : Mask) (hn : nodes ≠ 0) (ht : touches nodes
       simp only [List.map_cons, List.nodup_cons] at hln; exact hln.2
     unfold St.zoneShrinkUsage.go
     split
-    · simp only []
+    · rename_i hcond
+      have hstrict : r.strict = true → r.types = s0.zoneType r.zone ||| ty := by
+        intro hs
+        rw [hrzone, ← hzt]
+        simp only [hs, Bool.not_true, Bool.false_or, beq_iff_eq] at hcond
+        exact hcond
+      have hstep : IdsNodup (s.zoneMove (zone ||| nodes) r.id) ∧ P (s.zoneMove (zone ||| nodes) r.id) := by
+        refine ⟨?_, ?_⟩
+        · unfold IdsNodup; rw [zoneMove_ids]; exact hnd
+        · have := hmove s r nodes hp ⟨hnd, hrm, hrz, hn, hrp, by rw [hrzone]; exact ht,
+            ⟨s0, extra, ty, hnodes.symm, by rw [hrzone]; exact hexp, hstrict⟩⟩
+          rw [hrzone] at this; exact this
+      simp only []
       split
       · exact hstep
-      · exact ih _ _ hstep.1 hstep.2 hrest hrsn
-    · exact ih _ _ hnd hp (fun r' hr' => hl r' (List.mem_cons_of_mem _ hr')) hrsn
+      · exact ih _ _ hstep.1 hstep.2 (by rw [zoneMove_nodes']; exact hnodes) hrest hrsn
+    · exact ih _ _ hnd hp hnodes (fun r' hr' => hl r' (List.mem_cons_of_mem _ hr')) hrsn
 
 theorem zoneShrinkUsage_pres (s : St) (hnd : IdsNodup s) (hp : P s) (zone : Mask) (ht : touches nodes0 zone)
     (amount limit : Int) (hl : limit ≤ 32766) (extra : Nat) :
@@ -492,11 +524,11 @@ theorem zoneShrinkUsage_pres (s : St) (hnd : IdsNodup s) (hp : P s) (zone : Mask
     · exact ⟨hnd, hp⟩
     · rename_i hnodes
       have hperm := sortBy_perm reqLt (s.reqs.filter (fun r => r.zone ≠ 0 ∧ r.zone == zone ∧ r.prio ≤ limit))
-      apply shrinkGo_pres nodes0 P hamb hmove
-      · intro h; simp [h] at hnodes
-      · exact ht
+      have hn0 : (s.expand zone (s.zoneType zone ||| extra)).1 ≠ 0 := fun h => hnodes (beq_iff_eq.2 h)
+      apply shrinkGo_pres nodes0 P hamb hmove zone _ hn0 ht amount _ _ s extra rfl rfl
       · exact hnd
       · exact hp
+      · rfl
       · intro r hr
         have hm := (hperm.mem_iff).1 hr
         obtain ⟨hm1, hm2⟩ := List.mem_filter.1 hm
